@@ -78,6 +78,35 @@ func genDec(t *rapid.T, beyond bool) Val {
 	if rapid.IntRange(0, 19).Draw(t, "zero") == 0 {
 		return v // zero in a non-integer spelling
 	}
+	if beyond && rapid.IntRange(0, 5).Draw(t, "bigint") == 0 {
+		// a plain integer literal that does not fit int64: 19 digits above the
+		// largest int64 (where a hand-written reader wraps around), or more
+		n := rapid.IntRange(19, 23).Draw(t, "bigdigits")
+		var sb strings.Builder
+		switch rapid.IntRange(0, 3).Draw(t, "bigkind") {
+		case 0: // just beyond the edge
+			sb.WriteString([]string{"9223372036854775808", "9223372036854775809", "9223372036854775817", "9223372036854775900", "9300000000000000000", "9999999999999999999", "10000000000000000000", "18446744073709551615", "18446744073709551616", "18446744073709551617"}[rapid.IntRange(0, 9).Draw(t, "bigedge")])
+		default:
+			for i := 0; i < n; i++ {
+				lo := 0
+				if i == 0 {
+					lo = 1
+				}
+				sb.WriteByte(byte('0' + rapid.IntRange(lo, 9).Draw(t, "digit")))
+			}
+		}
+		lit := sb.String()
+		if _, err := strconv.ParseInt(lit, 10, 64); err == nil {
+			lit = "1" + lit // 20 digits never fit
+		}
+		// the edge literals fit int64 when negated only at -9223372036854775808
+		if v.Neg && lit == "9223372036854775808" {
+			lit = "9223372036854775809"
+		}
+		d := strings.TrimRight(lit, "0")
+		v.D, v.E, v.Big = d, len(lit)-len(d), true
+		return v
+	}
 	maxDigits := 15
 	if beyond && rapid.IntRange(0, 2).Draw(t, "long") == 0 {
 		maxDigits = 25
@@ -350,7 +379,13 @@ func (r *rend) val(v Val) {
 		r.sb.WriteString(strconv.FormatInt(v.I, 10))
 	case "dec":
 		if v.Big {
-			panic("harness: generated values have no big integer literals")
+			// one spelling only: any other would not be an integer literal
+			if v.Neg {
+				r.sb.WriteByte('-')
+			}
+			r.sb.WriteString(v.D)
+			r.sb.WriteString(strings.Repeat("0", v.E))
+			return
 		}
 		r.dec(v)
 	case "str":
